@@ -216,6 +216,24 @@ Theorem no_wrap_setattr : forall sz count, is_int32 count -> 0 < sz <= 8 ->
 Proof. exact setattr_lemma. Qed.
 Print Assumptions no_wrap_setattr.
 
+(** limits that the code enforces at MORE THAN ONE site must agree: H4_MAX_NC_VARS in SDcreate and in SDIgetcoordvar (the
+    coordinate variable a dimension gets on demand) *)
+Theorem variable_limit_sites_agree : forall c,
+  coordvar_too_many_vars c = sdcreate_too_many_vars c /\ (truth (coordvar_too_many_vars c) = true <-> H4_MAX_NC_VARS <= c).
+Proof. exact variable_limit_lemma. Qed.
+Print Assumptions variable_limit_sites_agree.
+
+Theorem attribute_count_limit : forall c, truth (putattr_too_many c) = true <-> H4_MAX_NC_ATTRS <= c.
+Proof. exact attribute_count_lemma. Qed.
+Print Assumptions attribute_count_limit.
+
+(** the scans of VSlone / Vlone over the ref flags visit every ref from 0 up to and including MAX_REF: an object with the
+    highest ref the format has is not skipped *)
+Theorem lone_scans_reach_MAX_REF : forall i, 0 <= i ->
+  (truth (vslone_scan_more i) = true <-> i <= MAX_REF) /\ (truth (vlone_scan_more i) = true <-> i <= MAX_REF).
+Proof. exact lone_scan_lemma. Qed.
+Print Assumptions lone_scans_reach_MAX_REF.
+
 (** "the library remains usable after a refused request", at the level of the specification: a refused request
     returns the abstract state it was given -- for every operation of the harness language (H, Vgroup, Vdata, SD
     level).  [plain_request] excludes only the reservations (next theorem), the linked-block write (refused after
@@ -362,4 +380,9 @@ Example machine_frame_example :
   let st := fst (m_run (m_init 294 true 294 0) [MSeek 0 2147483253; MWrite 100]) in
   snd (m_step st (MAlloc 1)) = MRefused /\ fst (m_step st (MAlloc 1)) = st /\
   snd (m_step st (MWrite 1)) = MRefused /\ fst (m_step st (MWrite 1)) = st.
+Proof. vm_compute. repeat split; reflexivity. Qed.
+Example multi_site_limits : truth (coordvar_too_many_vars 4999) = false /\ truth (coordvar_too_many_vars 5000) = true
+                          /\ truth (putattr_too_many 2999) = false /\ truth (putattr_too_many 3000) = true
+                          /\ truth (vslone_scan_more 65535) = true /\ truth (vslone_scan_more 65536) = false
+                          /\ truth (vlone_scan_more 65535) = true.
 Proof. vm_compute. repeat split; reflexivity. Qed.
